@@ -517,6 +517,15 @@ func runBubble(p Plan) (v hk.Verdict) {
 					if !model.EqualValue(want, c.New) {
 						v.Failf("%s (%s): commit #%d is not its mutation applied to the immediately preceding value: old %s new %s want %s", as.name, as.a.K, myCommits[0], c.Old, c.New, want)
 					}
+
+					// the value it was applied to satisfied the caller's preconditions (a conflict met on a retry is still a conflict)
+					if (as.a.K == "uwc" || as.a.K == "modify") && as.exp != nil && c.Old.Phase != *as.exp {
+						v.Failf("%s (%s via %s): expected phase %d, yet its mutation was committed (#%d) on top of %s: a phase conflict was retried into success", as.name, as.a.K, as.a.Via, *as.exp, myCommits[0], c.Old)
+					}
+
+					if (as.a.K == "uwc" || as.a.K == "modify" || as.a.K == "teardown") && c.Old.Owner != as.owner {
+						v.Failf("%s (%s via %s): acts as owner %q, yet its mutation was committed (#%d) on top of %s", as.name, as.a.K, as.a.Via, as.owner, myCommits[0], c.Old)
+					}
 				case model.Created:
 					if as.a.K != "modify" {
 						v.Failf("%s (%s) created a resource", as.name, as.a.K)
